@@ -690,7 +690,7 @@ func (m *Manager) flushMemTable(mem *memtable.MemTable) error {
 			// Add this as a new entry (includes tombstones)
 			var valueCopy []byte
 			if currentValue != nil {
-				valueCopy = append([]byte(nil), currentValue...)
+				valueCopy = append([]byte{}, currentValue...) // an empty value stays non-nil
 			}
 			// Note: valueCopy remains nil for tombstones
 
@@ -707,7 +707,7 @@ func (m *Manager) flushMemTable(mem *memtable.MemTable) error {
 				// This is a newer version of the same key, replace the previous entry
 				var valueCopy []byte
 				if currentValue != nil {
-					valueCopy = append([]byte(nil), currentValue...)
+					valueCopy = append([]byte{}, currentValue...) // an empty value stays non-nil
 				}
 				// Note: valueCopy remains nil for tombstones
 
